@@ -39,6 +39,7 @@ type Solver struct {
 	timeoutMs int
 	intMode   bool // integer back end (intmode.go)
 	ranges    map[int]intRange
+	cur       *Term
 	Stats     SolverStats
 	log       io.Writer // optional transcript
 }
@@ -193,12 +194,20 @@ func (s *Solver) defineAllInt(asserts []*Term, sb *strings.Builder) (why string)
 		if r := recover(); r != nil {
 			if u, ok := r.(intUnsupported); ok {
 				why = u.what
+				if os.Getenv("GOSYM_DEBUG") != "" && s.cur != nil {
+					d := s.cur.String()
+					if len(d) > 700 {
+						d = d[:700] + "..."
+					}
+					why += " IN " + d
+				}
 				return
 			}
 			panic(r)
 		}
 	}()
 	for _, a := range asserts {
+		s.cur = a
 		s.define(a, sb)
 	}
 	return ""
